@@ -256,7 +256,8 @@ async function fingerprint(rep) {
                 const s2 = structKey(p2[n1], { sortMembers: true });
                 const same256 = p2[n1].hash256() === h256;
                 const same32 = p2[n1].hash() === h32;
-                const detail = { engine: "E-src", base: renderProgram(base.base), rewritten: text, parser: n0, rewrite: vp.v.rewrite };
+                const baseText = renderProgram(base.base);
+                const detail = { engine: "E-src", base: baseText, rewritten: text, parser: n0, rewrite: vp.v.rewrite, type: `${n0}@${sha(baseText)}` };
                 if (ordered === o2) {
                   // structurally identical validators (names and alias boundaries aside): digests must agree
                   if (vp.v.h256 && !same256) rep.violation(`C13 equivalence : hash256 differs for structurally identical validators under ${vp.v.rewrite}`, `hash256 of parser ${n0} changes under rewrite ${vp.v.rewrite} although the validator trees are identical up to names`, detail);
